@@ -110,6 +110,7 @@ type Sim struct {
 	ids     [NumTypes]ecs.ID
 	pads    []ecs.ID
 	scratch *ecs.World  // a second world of the process (observer objects that served another world)
+	primeW  *ecs.World  // a third world, never modified: type-based relation arguments are used there first
 	resPads []ecs.ResID // dynamically registered resource types (C18)
 
 	filters   []*FilterInst
@@ -132,6 +133,7 @@ type Sim struct {
 	skewUsed   int
 	lockDepth  int // expected number of world locks held by open queries
 	evTypes    [NumCustom]ecs.EventType
+	spareEv    ecs.EventType // a custom event type no observer of the history listens to
 	statsCalls int
 	lastStats  string
 	maxTypes   int
@@ -196,6 +198,7 @@ func NewSim(cfg Config, flags Flags, prof *Profile) *Sim {
 	for i := range s.evTypes {
 		s.evTypes[i] = reg.NewEventType()
 	}
+	s.spareEv = reg.NewEventType()
 	ecs.Verif.Probe = func(id uint8) {
 		if int(id) < len(s.C.Probes) {
 			s.C.Probes[id]++
@@ -409,6 +412,7 @@ func (s *Sim) relations(tuple []int, tgt map[int]int, order []int, style int) []
 		}
 		out = out[:len(out):len(out)] // an append by a caller must not write into the shared array
 		relArgCache[k] = out
+		s.primeElsewhere(out, key)
 	}
 	return out
 }
@@ -631,3 +635,29 @@ func fmtInts(a []int) string {
 }
 
 func ptrOf(p unsafe.Pointer) uintptr { return uintptr(p) }
+
+// primeElsewhere uses freshly built type-based relation arguments once in another world of the
+// process (other component IDs) before the simulated world sees them: a query of a typed filter
+// there. Whatever that query does is of no interest; the arguments must come back unchanged.
+func (s *Sim) primeElsewhere(rels []ecs.Relation, key []uint64) {
+	if s.primeW == nil {
+		s.primeW = ecs.NewWorld(16)
+		for t := NumTypes - 1; t >= 0; t-- {
+			U[t].ID(s.primeW)
+		}
+		s.primeW.NewEntities(4096, nil)
+	}
+	var ts []int
+	for i := 0; i+2 < len(key); i += 3 {
+		if key[i+1] >= 4000 {
+			return // the target's ID does not exist in the other world
+		}
+		ts = append(ts, int(key[i]))
+	}
+	w2 := s.primeW
+	s.call(func() {
+		q := ecs.NewFilter0(w2).With(comps(ts)...).Query(rels...)
+		q.Close()
+	})
+	s.C.Faults["relation_args_used_in_other_world_first"]++
+}
